@@ -312,7 +312,11 @@ package keeper
 
 //@ family requests   key types.GetRequestKey value types.CompactRequest
 //@ family contexts   key types.GetRequestContextKey value types.RequestContext
-//@ family activeByID key types.GetActiveRequestKeyByID value unit
+// a request id is its context id followed by batch counter, height and index (types.GenerateRequestID); the walk over the
+// active requests of one batch selects the ids with that context id and counter (projections REQCTX / REQBATCH)
+//@ define REQCTX(r) = ufbytes("req_ctx", r)
+//@ define REQBATCH(r) = uf("req_batch", r)
+//@ family activeByID key types.GetActiveRequestKeyByID value gogotypes.BytesValue prefixby types.GetActiveRequestSubspaceByReqCtx:req_ctx+req_batch
 //@ family activeByB  key types.GetActiveRequestKey value unit
 //@ family responses  key types.GetResponseKey value types.Response
 
@@ -576,9 +580,21 @@ package keeper
 // every entry of a batch queue stores the id of its own request context
 //@ define queueVals = (forall i:Bytes :: forall h:Int :: has(newBatch, i, h) ==> get(newBatch, i, h).Value == i)
 //@               && (forall i:Bytes :: forall h:Int :: has(expBatch, i, h) ==> get(expBatch, i, h).Value == i)
+//@               && (forall r:Bytes :: has(activeByID, r) ==> get(activeByID, r).Value == r)
 //@ func Keeper.IterateExpiredRequestBatch
 //@   inline
 //@   invariant #1 inv: endBlockInv && queueVals
+//@   invariant #1 pos:  0 <= it_idx && it_idx <= it_n
+//@   invariant #1 todo: forall j:Int :: it_idx <= j && j < it_n ==> has(expBatch, it_seq[j].k0, expirationHeight)
+//@   invariant #1 done: forall j:Int :: 0 <= j && j < it_idx ==> !has(expBatch, it_seq[j].k0, expirationHeight)
+//@   invariant #1 none_added: forall i:Bytes :: !has(it_snap, i, expirationHeight) ==> !has(expBatch, i, expirationHeight)
+// contexts whose entry is still to come are as they were; of the ones handled, every request of the batch that expired
+// (unless the batch had been completed by its responses) is no longer active: slashed, refunded and removed (C07, C08)
+//@   invariant #1 snapvals: forall j:Int :: 0 <= j && j < it_n ==> get(it_snap, it_seq[j].k0, expirationHeight).Value == it_seq[j].k0
+//@   invariant #1 untouched: forall j:Int :: it_idx <= j && j < it_n ==> has(contexts, it_seq[j].k0) == old(has(contexts, it_seq[j].k0)) && CTX(it_seq[j].k0) == old(CTX(it_seq[j].k0))
+//@   invariant #1 closed: forall j:Int :: forall r:Bytes :: 0 <= j && j < it_idx && REQCTX(r) == it_seq[j].k0
+//@                          && old(has(contexts, it_seq[j].k0)) && old(CTX(it_seq[j].k0).BatchState) != types.BATCHCOMPLETED && REQBATCH(r) == old(CTX(it_seq[j].k0).BatchCounter)
+//@                          ==> !has(activeByID, r)
 //@ end
 // the walk over the new-batch queue of this height: the entries still to come are untouched, the ones handled are gone,
 // nothing is added to this height meanwhile (queue hygiene, C08/C13)
@@ -590,9 +606,16 @@ package keeper
 //@   invariant #1 done: forall j:Int :: 0 <= j && j < it_idx ==> !has(newBatch, it_seq[j].k0, requestBatchHeight)
 //@   invariant #1 none_added: forall i:Bytes :: !has(it_snap, i, requestBatchHeight) ==> !has(newBatch, i, requestBatchHeight)
 //@ end
+// the walk over the active requests of one batch (expiry): each one handled is no longer active, the ones to come
+// still are, and none of that batch is added meanwhile - so that afterwards no request of the batch is left without
+// an outcome (C08), whatever state the context is in
 //@ func Keeper.IterateActiveRequests
 //@   inline
 //@   invariant #1 inv: endBlockInv && queueVals
+//@   invariant #1 pos:  0 <= it_idx && it_idx <= it_n
+//@   invariant #1 todo: forall j:Int :: it_idx <= j && j < it_n ==> has(activeByID, it_seq[j])
+//@   invariant #1 done: forall j:Int :: 0 <= j && j < it_idx ==> !has(activeByID, it_seq[j])
+//@   invariant #1 none_added: forall r:Bytes :: !has(it_snap, r) ==> !has(activeByID, r)
 //@ end
 //@ func Keeper.CleanBatch
 //@   inline
@@ -605,6 +628,7 @@ package keeper
 //@   property C08, C13
 //@   returns ids
 //@   requires height >= 0 && endBlockInv
+//@   requires forall r:Bytes :: has(activeByID, r) ==> get(activeByID, r).Value == r
 //@   let c0 = CTX(requestContextID)
 //@   modifies requests, contexts, activeByID, activeByB, volumes
 //@   invariant #1 inv: endBlockInv
@@ -617,6 +641,8 @@ package keeper
 //@                         && CTX(requestContextID).State == c0.State && CTX(requestContextID).Consumer == c0.Consumer && CTX(requestContextID).ServiceName == c0.ServiceName
 //@   ensures others_kept: forall i:Bytes :: i != requestContextID ==> has(contexts, i) == old(has(contexts, i)) && CTX(i) == old(CTX(i))
 //@   ensures keeps: endBlockInv
+//@   invariant #1 vals: forall r:Bytes :: has(activeByID, r) ==> get(activeByID, r).Value == r
+//@   ensures keeps_vals: forall r:Bytes :: has(activeByID, r) ==> get(activeByID, r).Value == r
 //@   nopanic C13
 //@ end
 
